@@ -110,6 +110,33 @@ class Harness:
                 return None
             c.cover('commit appends newly pending task')
             spec['commit_twice'] = twice
+            # the pending task is deleted outright after an undo point, a rebuild blanks its entry, and the deletion is
+            # undone: the undo rebuilds without renumbering, so the re-created pending task must be listed again
+            if c.choose(2, 'delete-rebuild-undo'):
+                old_task = None
+                for u2, tm in w.tasks().items:
+                    if u2 == u:
+                        old_task = clone_val(tm)
+                ops2 = [I.mk_enum('Operation', 'UndoPoint', []), I.mk_enum('Operation', 'Delete', [u, old_task])]
+                r = w.commit_replica(ops2)
+                ren = bool(c.choose(2, 'renumber-before-undo'))
+                r1 = I.block_on(I.call('Replica::rebuild_working_set', [mkref(w.rep), ren]))
+                before = [x.fields[0] if x.variant else None for x in w.working_set()]
+                ru = I.block_on(I.call('Replica::get_undo_operations', [mkref(w.rep)]))
+                r2 = I.block_on(I.call('Replica::commit_reversed_operations', [mkref(w.rep), clone_val(ru.fields[0])])) if ru.variant == 0 else ru
+                spec['undo_delete'] = {'renumber': ren}
+                if r.variant != 0 or r1.variant != 0 or r2.variant != 0 or r2.fields[0] is not True:
+                    c.prove(False, 'delete / rebuild / undo failed', lambda m: dict(spec, modes=modes), {'class': 'undo-err', 'results': [repr(r)[:60], repr(r1)[:60], repr(r2)[:60]]})
+                    return None
+                new = [x.fields[0] if x.variant else None for x in w.working_set()]
+                status = {u2: status_name(c, tm.items[0][1]) if tm.items and not isinstance(tm.items[0][1], str) else
+                          (tm.items[0][1] if tm.items and tm.items[0][1] in IN_WS else 'completed') for u2, tm in w.tasks().items}
+                bad = check_ws(before, new, status, False)
+                if bad:
+                    c.prove(False, 'after undoing the deletion of a pending task: ' + bad[0], lambda m: dict(spec, modes=modes),
+                            {'class': 'undo-' + bad[1], 'before': before, 'new': new})
+                    return None
+                c.cover('deleted pending task listed again after undo')
         out = {'spec': dict(spec, modes=modes), 'final': old}
         if c.want_sample:
             out['scenario'] = recipe(dict(spec, modes=modes))
@@ -191,6 +218,10 @@ def recipe(spec):
         if spec['commit_twice']:
             ops += [upd(u, 'completed', 1), upd(u, 'pending', 2)]
         steps += [{'commit': 0, 'ops': ops}, {'dump': 0}]
+    if 'undo_delete' in spec:
+        steps += [{'commit': 0, 'ops': [{'op': 'undopoint'}, {'op': 'delete', 'uuid': 300}]},
+                  {'rebuild': 0, 'renumber': bool(spec['undo_delete']['renumber'])}, {'dump': 0},
+                  {'undo': 0}, {'dump': 0}]
     return {'kind': 'sync', 'replicas': 2, 'steps': steps}
 
 
@@ -211,7 +242,7 @@ def replay_judge(scn, out, v):
             probs.append({'err': res['err']})
         if 'rebuild' in st:
             renumber, is_rebuild = st['renumber'], True
-        elif 'sync' in st and st['sync'] == 0:
+        elif ('sync' in st and st['sync'] == 0) or 'undo' in st:
             renumber, is_rebuild = False, True
         elif 'dump' in st:
             d = res['dump']
@@ -240,7 +271,8 @@ def validate_samples(sample, out):
 
 
 def required_covers(tier):
-    return ['renumbering over old gaps', 'entry whose task vanished, no renumbering', 'commit appends newly pending task']
+    return ['renumbering over old gaps', 'entry whose task vanished, no renumbering', 'commit appends newly pending task',
+            'deleted pending task listed again after undo']
 
 
 def configs(tier):
